@@ -1,14 +1,15 @@
 #!/bin/bash
-# checks every round-5 seed against every property, in scratch worktrees
+# usage: s5_check.sh [-t tag] Cxx ...  — checks the seeds /verif/seeded/Cxx-<tag> (default a5) against every property, in scratch worktrees
 export GOFLAGS=-mod=mod GOPROXY=off GOSUMDB=off GOTOOLCHAIN=local GOWORK=off
+tag=a5; if [ "$1" = "-t" ]; then tag=$2; shift 2; fi
 for c in "$@"; do
  (
   wt=/tmp/s5w-$c; git -C /repo worktree remove --force $wt >/dev/null 2>&1; git -C /repo worktree add --detach $wt HEAD >/dev/null 2>&1
-  (cd $wt && git apply /verif/seeded/$c-a5/patch.diff)
+  (cd $wt && git apply /verif/seeded/$c-$tag/patch.diff)
   mkdir -p /tmp/s5v-$c && cp /verif/known_findings.json /tmp/s5v-$c/
   /verif/bin/saocheck -p all -repo $wt -verif /tmp/s5v-$c > /root/vmlog/s5-$c.log 2>&1
   own=$(grep -c "^VIOLATION property=$c " /root/vmlog/s5-$c.log)
-  echo "$c-a5 own_alarms=$own rules=[$(grep -E '^violation:|^UNDECIDED' /root/vmlog/s5-$c.log | awk '{print $1,$2}' | sort | uniq -c | tr '\n' ';')] props=[$(grep '^VIOLATION' /root/vmlog/s5-$c.log | sed 's/ replay.*//;s/VIOLATION property=//' | sort -u | tr '\n' ' ')]"
+  echo "$c-$tag own_alarms=$own rules=[$(grep -E '^violation:|^UNDECIDED' /root/vmlog/s5-$c.log | awk '{print $1,$2}' | sort | uniq -c | tr '\n' ';')] props=[$(grep '^VIOLATION' /root/vmlog/s5-$c.log | sed 's/ replay.*//;s/VIOLATION property=//' | sort -u | tr '\n' ' ')]"
   git -C /repo worktree remove --force $wt >/dev/null 2>&1; rm -rf /tmp/s5v-$c
  ) &
  while [ $(jobs -r | wc -l) -ge 7 ]; do sleep 2; done
